@@ -15,5 +15,6 @@ with open('/verif/seeded/INDEX.md', 'w') as f:
     f.write("| change | what it does | what it needs to manifest | confirmed | caught by (quick) | first signature |\n|---|---|---|---|---|---|\n")
     for r in rows: f.write("| " + " | ".join(r) + " |\n")
     n = sum(1 for r in rows if r[3] == 'yes'); c = sum(1 for r in rows if r[3] == 'yes' and r[4] not in ('-', 'n/a'))
-    f.write(f"\n{c} of {n} confirmed changes are caught by the quick tier of the property they were written against.\n")
+    own = sum(1 for r in rows if r[3] == 'yes' and r[0].split('-')[0] in [x.strip() for x in r[4].split(',')])
+    f.write(f"\n{c} of {n} confirmed changes are caught by at least one quick check; {own} of them by the check of the property they were written against (the others by the check of the property that owns the behaviour: redirect hops by C10/C08, re-reads after errors by C02).\n")
 print(open('/verif/seeded/INDEX.md').read()[-300:])
